@@ -347,8 +347,8 @@ class AntexParser(ChainParser):
         ant = cache["antenna_code"] if cache["sat_code"] else cache["antenna_type"]
         self.data.setdefault(ant, dict())
         freq = cache["frequency_code"]
-        if "valid_from" in cache:
-            dt = cache["valid_from"]
+        # 'VALID FROM' is optional in the ANTEX format: without it the corrections are valid from the beginning
+        dt = cache.get("valid_from", datetime.datetime.min)
         tmp: Dict[str, Any] = dict()  # Temporary dictionary, where antenna correction for one frequency is saved.
         tmp[freq] = dict()
 
